@@ -11,8 +11,8 @@ Excluded from random output (documented stricter-than-CPython cases and known-fi
 deterministically elsewhere): duplicate parameter names, repeated keyword arguments, tab after space in
 indentation; identifiers that are not NFKC-stable; a logical line starting with the NAME `match`/`case`
 that has a later top-level colon; `<number>.<keyword>`;
-triple-quoted strings inside f-string fields; (opt `no_pep695_after_semi`) type alias not at
-line start.
+triple-quoted strings inside f-string fields.  Type aliases are generated wherever a simple statement may stand
+(line start, after `;`, after a one-line compound header; repaired C01 finding `type-alias-not-at-line-start`).
 """
 import json
 import unicodedata
@@ -906,7 +906,7 @@ class Gen:
                         names = "(" + self.O() + names + (self.O() + "," if self.p(0.4) else "") + self.O() + ")"
             return "from" + S() + loc + S() + "import" + S() + names
         if r < 0.93 and self.pep695:
-            return None         # type alias, generated by the caller at line start only
+            return None         # type alias, generated by the caller (it needs a twin text)
         return self.exprlist(d)
 
     def type_alias(self, d):
@@ -932,10 +932,8 @@ class Gen:
         for k in range(n):
             s = self.simple_stmt(d)
             if s is None:
-                if k == 0:
-                    t, w = self.type_alias(d)
-                else:
-                    t = w = "pass"
+                # a type alias is a simple statement: at line start, after `;`, after a one-line compound header
+                t, w = self.type_alias(d)
             else:
                 t = w = s
             parts_t.append(t)
@@ -963,8 +961,7 @@ class Gen:
         header_w = header_t if header_w is None else header_w
         if self.p(0.15) or d <= 0:
             t, w = self.simple_line(max(d, 0))
-            if not t.startswith("type "):
-                return [(header_t + self.ch([" ", "", "  "]) + t, header_w + " " + w)]
+            return [(header_t + self.ch([" ", "", "  "]) + t, header_w + " " + w)]
         body = self.block(d - 1)
         ind = self.indent
         lines = [(header_t, header_w)]
